@@ -6,8 +6,10 @@
 (*   limit/head/first n : keep the first n      skip/drop n : remove first n*)
 (*   tail/last n : keep the last n              take n : split off next n   *)
 (*   tee k : k independent copies (the teed query must not be used again)   *)
-(*   first_one/one, last_one, values/locations/items/pointers: observations *)
-(*   that use the query up (what they leave behind is not specified).       *)
+(*   first_one/one, last_one, values/locations/items/pointers: observations;*)
+(*   the query is a single-pass iterator, so what an observation has read   *)
+(*   is no longer "remaining": first_one reads one match, last_one and the  *)
+(*   views read everything; the query stays usable afterwards.              *)
 (* Negative counts are refused (value error) and change nothing.            *)
 (***************************************************************************)
 EXTENDS Naturals, Integers, Sequences, FiniteSets, TLC, Json
@@ -63,12 +65,12 @@ Tee(q, c) ==
   /\ UNCHANGED n
 
 Observe(op, q) ==
-  /\ live' = live \ {q}
+  /\ rem' = [rem EXCEPT ![q] = IF op = "first_one" /\ @ # <<>> THEN Tail(@) ELSE <<>>]
   /\ hist' = Append(hist, Rec(op, q, 0,
         CASE op = "first_one" -> (IF rem[q] = <<>> THEN [k |-> "nothing", ids |-> <<>>] ELSE [k |-> "match", ids |-> <<rem[q][1]>>])
           [] op = "last_one" -> (IF rem[q] = <<>> THEN [k |-> "nothing", ids |-> <<>>] ELSE [k |-> "match", ids |-> <<rem[q][Len(rem[q])]>>])
           [] OTHER -> [k |-> "list", ids |-> rem[q]], 0))
-  /\ UNCHANGED <<n, rem>>
+  /\ UNCHANGED <<n, live>>
 
 Step(q) ==
   \/ \E op \in {"limit", "skip", "tail"}, c \in Counts : Refuse(op, q, c) \/ Slice(op, q, c)
@@ -89,6 +91,9 @@ NextSim ==
 Spec == Init /\ [][Next]_vars
 
 \* ---- properties --------------------------------------------------------------
+\* an observation never gives a match twice: what it returned is gone from the query
+ReadOnce == [][(hist' # hist /\ hist'[Len(hist')].ret.k \in {"match", "list"}) =>
+                 LET h == hist'[Len(hist')] IN \A i \in 1..Len(h.ret.ids) : \A j \in 1..Len(rem'[h.q]) : rem'[h.q][j] # h.ret.ids[i]]_vars
 Full == [i \in 1..n |-> i]
 IsContiguous(s) == \A i \in 1..(Len(s) - 1) : s[i + 1] = s[i] + 1
 \* every query always holds a contiguous slice of the full match list
